@@ -225,7 +225,13 @@ func receiveFromTransport(ctx context.Context, c *channel, done chan<- struct{})
 				// If a session is received while established,
 				// the receiver goroutine can stop.
 				if c.client {
-					c.setStateWLock(e.State)
+					state := e.State
+					if state.Step() < c.State().Step() {
+						// The server cannot regress the session state (applying it would panic
+						// this goroutine): the session is not usable anymore.
+						state = SessionStateFailed
+					}
+					c.setStateWLock(state)
 				}
 				return
 			}
